@@ -16,6 +16,8 @@ def dt_from_text(text, rng):
     if p[2] > 6:
         return text          # sub-microsecond digits cannot be carried by datetime
     naive = ORIGIN + dt.timedelta(microseconds=us)
+    if us % (86400 * 10 ** 6) == 0 and rng.random() < 0.5:
+        return naive.date()                            # a date means midnight UTC
     r = rng.random()
     if r < 0.3:
         return naive.replace(tzinfo=dt.timezone.utc)
@@ -36,9 +38,23 @@ def native_kind(m, kind, v, rng):
     if k == "ts" and isinstance(v, str):
         return dt_from_text(v, rng)
     if k == "list" and isinstance(v, list):
-        return [native_kind(m, kind["of"], x, rng) for x in v]
+        out = [native_kind(m, kind["of"], x, rng) for x in v]
+        if len(out) == 1 and kind["of"]["k"] in ("string", "openvocab", "enum", "embedded", "ref") and rng.random() < 0.3 \
+                and not isinstance(out[0], dict):
+            return out[0]                              # a single string / object where a list is accepted
+        return out
     if k == "embedded" and isinstance(v, dict):
-        return native_table(m, m.embedded[kind["type"]], v, rng)
+        nv = native_table(m, m.embedded[kind["type"]], v, rng)
+        if rng.random() < 0.5:
+            import stix2
+            mod = stix2.v20 if m.version == "2.0" else stix2.v21
+            cls = getattr(mod, kind["type"], None)
+            if cls is not None:
+                try:
+                    return cls(allow_custom=True, **nv)    # nested library object instead of a dictionary
+                except Exception:
+                    return nv
+        return nv
     if k == "extensions" and isinstance(v, dict):
         return {key: (native_table(m, m.extensions[key], ext, rng) if key in m.extensions and isinstance(ext, dict) else ext)
                 for key, ext in v.items()}
